@@ -5,4 +5,4 @@ Extraction "C06/model_extracted.ml" force_types quote_header_value unquote_heade
   parse_set_header parse_dict_header dump_header_dict parse_options_header dump_options_header parse_etags etags_to_header etags_new
   quote_etag unquote_etag range_new range_to_header parse_range_header content_range_new content_range_to_header
   parse_content_range_header parse_age dump_age dump_csp parse_csp cc_get cc_set is_byte_range_valid url_unquote charset_match
-  plain_int py_int Z_of_text text_of_Z b64encode basic_to_header token_to_header py_title format_http_date parse_http_date params_to_header www_digest_to_header.
+  plain_int py_int Z_of_text text_of_Z b64encode basic_to_header token_to_header py_title format_http_date parse_http_date params_to_header www_digest_to_header parse_date_shapes.
